@@ -234,22 +234,30 @@ def usageWithTitle (c : Cmd) (u : UInfo) (required : List Id) (used : List Id) :
 
 def renderUsage (c : Cmd) (u : UInfo) : Option Bytes := usageWithTitle c u (Validator.requiredGraph c) []
 
+/-- is the id explicitly present in the matcher handed to `get_required_usage_from` (if any)? -/
+def presentIn (m : Option ArgMap) (id : Id) : Bool :=
+  match m with | some m => m.checkExplicit id .isPresent | none => false
+
+/-- which `requires` entries of `a` count: unconditional ones, and value-conditional ones whose value `a` has -/
+def relevantWith (m : Option ArgMap) (a : Id) (p : Pred × Id) : Option Id :=
+  match p.1 with
+  | .isPresent => some p.2
+  | .equals v => match m with
+    | some m => if m.checkExplicit a (.equals v) then some p.2 else none
+    | none => none
+
+/-- args `get_required_usage_from` leaves out: present ones, and a `last` positional unless `incl_last` -/
+def skipFor (m : Option ArgMap) (inclLast : Bool) (a : Arg) : Bool :=
+  presentIn m a.id || (a.index.isSome && a.last && !inclLast)
+
 /-- `get_required_usage_from(incls, matcher, incl_last)` -/
 def requiredUsageFrom (c : Cmd) (u : UInfo) (required : List Id) (incls : List Id) (m : Option ArgMap) (inclLast : Bool) :
     Option (List Bytes) :=
-  let relevant := fun (a : Id) (p : Pred × Id) =>
-    match p.1 with
-    | .isPresent => some p.2
-    | .equals v => match m with
-      | some m => if m.checkExplicit a (.equals v) then some p.2 else none
-      | none => none
-  let reqs := unrolledReqs c required relevant ++ incls
-  let present := fun (id : Id) => match m with | some m => m.checkExplicit id .isPresent | none => false
-  match groupPass c u (fun members => members.any present) reqs [] [] with
+  let reqs := unrolledReqs c required (relevantWith m) ++ incls
+  match groupPass c u (fun members => members.any (presentIn m)) reqs [] [] with
   | none => none
   | some (groups, members) =>
-    -- positionals with `last` are left out unless `incl_last`; present args are left out
-    match argPass c u members true (fun a => present a.id || (a.index.isSome && a.last && !inclLast)) reqs [] [] with
+    match argPass c u members true (skipFor m inclLast) reqs [] [] with
     | none => none
     | some (opts, pos) => some (opts ++ groups ++ pos.filterMap id)
 
